@@ -16,7 +16,9 @@ Tx2 == [i \in 1..32 |-> IF i = 32 THEN 2 ELSE 1]
 Tx3 == [i \in 1..32 |-> IF i = 1 THEN 0 ELSE 255]
 RefPool == {[txid |-> t, index |-> ix] : t \in {Tx1, Tx2, Tx3}, ix \in {0, 1, 10}}
 InputNames == <<"zeta", "alpha", "mid", "beta">>          \* source order is not name order
-RedOf(i) == CtorE("Var", "C", <<F("z", Lit(100 + i))>>, Absent)
+\* (a few of the items carry the field-less alternative 1 or the unit value instead of a case with a field)
+RedOf(i) == IF i \in {2, 12} THEN CtorE("Var", "B", <<>>, Absent) ELSE IF i = 21 THEN [k |-> "unit"]
+            ELSE CtorE("Var", "C", <<F("z", Lit(100 + i))>>, Absent)
 UtxoAt(r, lovelace) == [ref |-> r, address |-> <<96>> \o [i \in 1..28 |-> 81],
                         assets |-> <<[c |-> Naked, n |-> FromInt(lovelace)]>>, datum |-> None]
 H3 == [i \in 1..28 |-> IF i = 1 THEN 17 ELSE 0]       \* sorts between nothing and H1: 0x1100.. < 0x1111..
